@@ -39,6 +39,14 @@ def set_v(x):
     v = x
 def boom():
     raise ValueError('boom-' + v)
+def apply(f):
+    return ('applied', f(), v)
+def maker():
+    def inner():
+        return ('inner', v)
+    return inner
+def ctxname():
+    return pyscript.get_global_ctx()
 class K:
     tag = 'K-m1'
     def who(self):
@@ -57,6 +65,14 @@ def boom():
     raise ValueError('boom-' + v)
 def via_sib():
     return SIBCALL
+def apply(f):
+    return ('applied', f(), v)
+def maker():
+    def inner():
+        return ('inner', v)
+    return inner
+def ctxname():
+    return pyscript.get_global_ctx()
 class K:
     tag = 'K-m2'
     def who(self):
@@ -72,6 +88,13 @@ def set_v(x):
     v = x
 '''
 
+PLACEMENTS = {
+    "scripts": ("a.py", "file.a", "b.py", "file.b"),
+    "appfile_apppkg": ("apps/a.py", "apps.a", "apps/b/__init__.py", "apps.b"),
+    "apppkg_script": ("apps/a/__init__.py", "apps.a", "b.py", "file.b"),
+    "apppkg_apppkg": ("apps/a/__init__.py", "apps.a", "apps/b/__init__.py", "apps.b"),
+    "script_subdir": ("scripts/a.py", "scripts.a", "scripts/sub/b.py", "scripts.sub.b"),
+}
 FORMS = ["import", "import_as", "from_names_after", "from_names_before", "from_star_before", "pkg", "pkg_from"]
 ENTRIES = ["load", "service", "startup", "task"]
 
@@ -87,27 +110,33 @@ def set_v(x):
     v = x
 def boom():
     raise ValueError('boom-' + v)
+def own_v():
+    return ('own', v)
 class K:
     tag = 'K-{me}'
     def who(self):
         return (self.tag, v)
 '''
     if form == "import":
-        head, G, S, B, KK = "import m1\n" + own, "m1.get_v()", "m1.set_v", "m1.boom()", "m1.K()"
+        head, M = "import m1\n" + own, "m1."
     elif form == "import_as":
-        head, G, S, B, KK = "import m1 as mm\n" + own, "mm.get_v()", "mm.set_v", "mm.boom()", "mm.K()"
+        head, M = "import m1 as mm\n" + own, "mm."
     elif form == "from_names_after":
         # the imported names replace the script's own definitions (as in Python)
-        head, G, S, B, KK = own + "from m1 import get_v, set_v, boom, K\n", "get_v()", "set_v", "boom()", "K()"
+        head, M = own + "from m1 import get_v, set_v, boom, K, apply, maker, ctxname\n", ""
     elif form == "from_names_before":
         # the script's own definitions replace the imported names
-        head, G, S, B, KK = "from m1 import get_v, set_v, boom, K\n" + own, "get_v()", "set_v", "boom()", "K()"
+        head, M = "from m1 import get_v, set_v, boom, K, apply, maker, ctxname\n" + own, ""
     elif form == "from_star_before":
-        head, G, S, B, KK = "from m1 import *\n" + own, "get_v()", "set_v", "boom()", "K()"
+        head, M = "from m1 import *\n" + own, ""
     elif form == "pkg":
-        head, G, S, B, KK = "import m2\n" + own, "m2.get_v()", "m2.set_v", "m2.boom()", "m2.K()"
+        head, M = "import m2\n" + own, "m2."
     else:
-        head, G, S, B, KK = "from m2 import via_sib, sib\n" + own, "via_sib()", "sib.set_v", "boom()", "K()"
+        head, M = "from m2 import via_sib, sib, apply, maker, ctxname\n" + own, ""
+    G, S, B, KK = M + "get_v()", M + "set_v", M + "boom()", M + "K()"
+    if form == "pkg_from":
+        G, S = "via_sib()", "sib.set_v"
+    AP, MK, CN = M + "apply", M + "maker", M + "ctxname"
     chain = f'''
 log = []
 def chain():
@@ -120,6 +149,10 @@ def chain():
     except ValueError as e:
         log.append(('caught', str(e)))
     log.append(('{me}.after', v))
+    log.append(('cb', {AP}(own_v), {AP}(lambda: ('lam', v))))
+    log.append(('closure', {MK}()()))
+    log.append(('ctx', pyscript.get_global_ctx(), {CN}()))
+    log.append(('{me}.after2', v, own_v()))
     log.append(('K', {KK}.who()))
     try:
         log.append(('peek', only_in_{other}))
@@ -156,7 +189,28 @@ def canon(v):
     return v
 
 
-def run_reference(fa, ea, fb, eb, sibform):
+class _PyscriptShim:
+    """`pyscript.get_global_ctx()` of the reference: the context name of the file whose code is running."""
+
+    def __init__(self, names):
+        self.names = names
+
+    def get_global_ctx(self):
+        return self.names[sys._getframe(1).f_globals["__name__"]]
+
+
+def run_reference(fa, ea, fb, eb, sibform, place):
+    import builtins
+
+    pl = PLACEMENTS[place]
+    builtins.pyscript = _PyscriptShim({"a": pl[1], "b": pl[3], "m1": "modules.m1", "m2": "modules.m2", "m2.sib": "modules.m2.sib"})
+    try:
+        return _run_reference(fa, ea, fb, eb, sibform)
+    finally:
+        del builtins.pyscript
+
+
+def _run_reference(fa, ea, fb, eb, sibform):
     base = tempfile.mkdtemp(prefix=f"verif-c11-{os.getpid()}-", dir="/dev/shm" if os.path.isdir("/dev/shm") else None)
     try:
         files = dict(module_files(sibform))
@@ -203,17 +257,19 @@ def run_reference(fa, ea, fb, eb, sibform):
         shutil.rmtree(base, ignore_errors=True)
 
 
-def run_pyscript(fa, ea, fb, eb, sibform, legacy):
+def run_pyscript(fa, ea, fb, eb, sibform, place, legacy):
     from mc.world import World
 
+    pl = PLACEMENTS[place]
+    cn = {"a": pl[1], "b": pl[3]}
     files = {"modules/" + k: v for k, v in module_files(sibform).items()}
-    files["a.py"] = script_src("a", fa, ea, True)
-    files["b.py"] = script_src("b", fb, eb, True)
-    w = World(files, legacy=legacy)
+    files[pl[0]] = script_src("a", fa, ea, True)
+    files[pl[2]] = script_src("b", fb, eb, True)
+    w = World(files, legacy=legacy, config={"apps": {"a": {}, "b": {}}})
     try:
         exc = {}
         for me, e in (("a", ea), ("b", eb)):
-            if w.ctx(f"file.{me}") is None:
+            if w.ctx(cn[me]) is None:
                 exc[me] = "load-failed"
         for me, e in (("a", ea), ("b", eb)):
             if e in ("service", "task") and w.hass.services.has_service("pyscript", f"run_{me}"):
@@ -221,7 +277,7 @@ def run_pyscript(fa, ea, fb, eb, sibform, legacy):
         w.settle()
         out = {"exc": exc}
         for me in ("a", "b"):
-            g = w.g(f"file.{me}")
+            g = w.g(cn[me])
             if g is not None:
                 out[me] = {"log": canon(g.get("log", [])), "v": g.get("v")}
         for mn, cn in (("m1", "modules.m1"), ("m2", "modules.m2"), ("m2.sib", "modules.m2.sib")):
@@ -243,11 +299,14 @@ def programs(tier):
                                                     ("task", "task"), ("service", "startup")):
                 continue
             for sibform in (("from_dot", "from_name") if "pkg" in fa + fb else ("from_dot",)):
-                yield (fa, ea, fb, eb, sibform)
+                for place in PLACEMENTS:
+                    if tier == "quick" and place != "scripts" and (fa == fb or (ea, eb) not in (("load", "service"), ("task", "task"))):
+                        continue
+                    yield (fa, ea, fb, eb, sibform, place)
 
 
 def bounds(tier):
-    return {"programs": sum(1 for _ in programs(tier)), "import_forms": FORMS, "entries": ENTRIES}
+    return {"programs": sum(1 for _ in programs(tier)), "import_forms": FORMS, "entries": ENTRIES, "placements": list(PLACEMENTS)}
 
 
 def plan(tier, seed):
